@@ -20,6 +20,16 @@ ASSUMPTIONS += ["a file may hold SEVERAL ConstraintSystem messages (zkinterface 
                 "trace in one process and one directory: stages adding wires and constraints / only wires / only constraints / nothing), "
                 "judged after every export; a file that is absent after prove(), or byte-identical to the previous export although the trace "
                 "grew, is a violation (files-not-written / stale-files), never an infrastructure error"]
+ASSUMPTIONS += ["every export of a staged / faulted / several-fields run is judged against the trace the HARNESS installed (accumulated from the case "
+                "line), never against the backend's in-memory lists read back after an earlier prove()",
+                "ONE trace exported under SEVERAL fields in one interpreter (bn128, bls12-381, curve25519 order in every order, the field switched "
+                "between exports with set_modulus() or by importing / reloading the field module whose body calls it, which is all "
+                "backendbellman / backendbulletproofs do): the linear combinations are built with the backend's own LinearCombination operators "
+                "(`*` by an integer, `+`, `-`, unary minus) from the objects pubval()/privval()/one() return, expected coefficients = the integer "
+                "arithmetic of the case line; every export must decode to that trace reduced modulo the field of THAT export, and constraints "
+                "that hold over the integers must be satisfied by the decoded assignment in every field",
+                "faults at the write stage (a directory / dangling link under either output name, working directory removed) followed by regular "
+                "exports in the same interpreter: the failing prove() is not judged, the exports after it are"]
 PARTIAL = ["tree level: all clauses proved; byte level: reader-validated only"]
 BACKENDS = {"zkinterface": "zkif_p", "zkifbellman": "bellman_p", "zkifbulletproofs": "bulletproofs_p"}
 
@@ -117,11 +127,53 @@ def large_traces(rnd, p, sizes, tag):
     return out
 
 
+CURVES3 = [common.BN128, common.BLS381, common.ED25519]
+
+
+def multi_field_traces(rnd, n, p0, tag="m"):
+    """one trace built with the backend's LC algebra while p0 is current, then exported under 2-4 fields; returns (line, expected
+    'pubs|privs|cons' computed here with integer arithmetic, fields, how)"""
+    import json
+    out = []
+    for i in range(n):
+        npub = rnd.randrange(1, 4); npriv = rnd.randrange(1, 4)
+        def val(): return rnd.choice([0, 1, -1, 2, -3, 7, rnd.randrange(-50, 50), rnd.randrange(-2 ** 64, 2 ** 64), p0 - 1, p0 + 2, -p0])
+        pubs = [val() for _ in range(npub)]; privs = [val() for _ in range(npriv)]
+        def wv(k): return 1 if k == 0 else pubs[k - 1] if k > 0 else privs[-k - 1]
+        def coef(): return rnd.choice([1, 1, -1, 2, 3, -5, p0 - 1, p0, p0 + 1, -p0 - 3, rnd.randrange(-2 ** 70, 2 ** 70)])
+        def lcspec(lo=0, hi=3):
+            return [[rnd.choice([1, -1]), rnd.randrange(-len(privs), npub + 1), coef()] for _ in range(rnd.randrange(lo, hi + 1))]
+        def lcval(sp): return sum(sg * c * wv(k) for sg, k, c in sp)
+        cons = []
+        for _ in range(rnd.randrange(1, 5)):
+            a, b = lcspec(1), lcspec(1)
+            if rnd.random() < 0.75:
+                # holds over the INTEGERS (hence in every field): a fresh private wire carries a*b - rest, and enters c with + or -
+                rest = lcspec(0, 2); sg = rnd.choice([1, -1])
+                privs.append(sg * (lcval(a) * lcval(b) - lcval(rest)))
+                c = rest + [[sg, -len(privs), 1]]; rnd.shuffle(c)
+            else:
+                c = lcspec()
+            cons.append([a, b, c])
+        def flat(sp):
+            d = {}
+            for sg, k, c in sp:
+                d[k] = d.get(k, 0) + sg * c
+            return ",".join(f"{k}:{v}" for k, v in d.items())
+        expected = f"{','.join(map(str, pubs))}|{','.join(map(str, privs))}|" + ";".join("#".join(flat(l) for l in c) for c in cons)
+        others = [q for q in CURVES3 if q != p0]; rnd.shuffle(others)
+        fields = rnd.choice([[p0] + others, others + [p0], others, [others[0], p0, others[1]], [p0, others[0], p0], [others[0]]])
+        how = "import" if i % 2 else "set_modulus"
+        line = f"JM|{tag}{i}|{p0}|" + json.dumps({"pub": pubs, "priv": privs, "cons": cons, "fields": fields, "how": how})
+        out.append((line, expected, fields, how))
+    return out
+
+
 def size_class(n):
     return "0" if n == 0 else "1-1000" if n <= 1000 else "1001-2000" if n <= 2000 else "above-2000"
 
 
-def judge(ex, be, line, p, tf, files, model_line, stage=None, prev_files=None, prev_trace=None):
+def judge(ex, be, line, p, tf, files, model_line, stage=None, prev_files=None, prev_trace=None, own_field=True):
     """one export: decoded trees vs the model's, then the clause checks; returns list of (clause, message)"""
     pubs, privs, cons = c10.parse_trace(tf)
     pp = int(tf[2])
@@ -142,7 +194,7 @@ def judge(ex, be, line, p, tf, files, model_line, stage=None, prev_files=None, p
             if pp != p:
                 bad.append(("modulus", f"backend {be} works modulo {pp}, its source names {p}"))
             from .c13 import CURVE
-            if pp != CURVE[be]:
+            if own_field and pp != CURVE[be]:
                 bad.append(("field", f"field maximum {pp - 1} + 1 is not the scalar-field order of the curve of {be}"))
         except Exception as e:
             impl = f"{tf[0]}|undecodable: {type(e).__name__}: {e}"
@@ -164,6 +216,9 @@ def explore(ctx, extended=False, focus=None):
     ex.rule = ("for each of the three field configurations: programs traced on the real backend then prove(); traces installed through "
                "pubval/privval/add_constraint with extreme witness values/coefficients; a few large traces (1001-2600 constraints); staged "
                "traces (2-4 exports of one growing trace in one process: wires+constraints / wires only / constraints only / nothing new); "
+               "one trace built with the backend's LinearCombination operators and exported under 1-3 fields in one interpreter (field switched by "
+               "set_modulus / by importing the field module), each export decoded against the installed trace modulo ITS field, integer "
+               "identities satisfied in every field; runs failing at the write stage followed by regular exports; "
                "pairs of traces with equal public values and shape but different private "
                "values (circuit.zkif must be byte-identical); decoded trees vs the Lean model and vs the clause checks; distinct = "
                "(backend, source, #pub, #priv, #constraints, value classes)")
@@ -193,7 +248,11 @@ def explore(ctx, extended=False, focus=None):
             large = large_traces(rnd, p, sizes, "big")
             staged = c10.staged_traces(rnd, ctx.n(40, 800) * (2 if extended else 1), p=p)
             kinds_of = {l.split("|")[1]: k for l, k in staged}
-            all_lines = lines + direct + twins + large + [l for l, _ in staged]
+            multi = multi_field_traces(rnd, ctx.n(40, 600) * (2 if extended else 1), p)
+            multi_of = {l.split("|")[1]: (e, fs, how) for l, e, fs, how in multi}
+            faulted = c10.faulted_traces(rnd, ctx.n(15, 200) * (2 if extended else 1), p=p, names=("computation.zkif", "circuit.zkif"))
+            faults_of = {l.split("|")[1]: lab for l, lab in faulted}
+            all_lines = lines + direct + twins + large + [l for l, _ in staged] + [l for l, _, _, _ in multi] + [l for l, _ in faulted]
             outs = w.run(all_lines)
         finally:
             w.close()
@@ -204,11 +263,35 @@ def explore(ctx, extended=False, focus=None):
                 raise common.Infra(o[:600])
             if line.startswith("JS|"):
                 prev_files = prev_trace = None
+                installed = c10.accumulated(json.loads(line.split("|", 3)[3]))
                 for k, st in enumerate(json.loads(o.split("|", 3)[3])):
-                    tf = [f[0], f[1], f[2]] + st["trace"].split("|")
+                    tf = [f[0], f[1], f[2]] + installed[k].split("|")       # what was installed, not what the backend's lists say later
                     recs.append((line, "staged", tf, st["files"], k + 1, prev_files, prev_trace, kinds_of[f[0]][k]))
-                    zl.append(f"Z|{f[0]}|{f[2]}|{st['trace']}")
+                    zl.append(f"Z|{f[0]}|{f[2]}|{installed[k]}")
                     prev_files, prev_trace = st["files"], tf[3:6]
+                continue
+            if line.startswith("JM|"):
+                expected, fields, how = multi_of[f[0]]
+                prev_q = int(f[2])
+                for k, st in enumerate(json.loads(o.split("|", 3)[3])):
+                    q = fields[k]
+                    tf = [f[0], f[1], str(st["p"])] + expected.split("|")
+                    recs.append((line, "several-fields", tf, st["files"], k + 1, None, None,
+                                 ("traced-under-this-field" if q == int(f[2]) and k == 0 else "back-to-the-tracing-field" if q == int(f[2])
+                                  else "field-switched-after-tracing", q, how)))
+                    zl.append(f"Z|{f[0]}|{st['p']}|{expected}")
+                continue
+            if line.startswith("JF|"):
+                runs = json.loads(line.split("|", 3)[3])["runs"]; last_fault = None
+                for k, st in enumerate(json.loads(o.split("|", 3)[3])):
+                    lab = faults_of[f[0]][k]
+                    if lab is not None and "!raised" in st["files"]:
+                        last_fault = lab; ex.count(f"fault:{lab}:prove-raised"); continue
+                    tr = c10.accumulated([runs[k]])[0]
+                    tf = [f[0], f[1], f[2]] + tr.split("|")
+                    recs.append((line, "faulted", tf, st["files"], k + 1, None, None,
+                                 "after-failed-export:" + last_fault if last_fault else "before-any-fault"))
+                    zl.append(f"Z|{f[0]}|{f[2]}|{tr}")
                 continue
             files = dict(x.split("=", 1) for x in f[6:] if "=" in x)
             recs.append((line, "direct" if line.startswith("JT") else "program", f, files, None, None, None, None))
@@ -221,23 +304,48 @@ def explore(ctx, extended=False, focus=None):
             pubs, privs, cons = c10.parse_trace(tf)
             pp = int(tf[2])
             ex.count(f"backend:{be}"); ex.count(f"source:{src}"); ex.count(f"constraints:{size_class(len(cons))}")
-            if stage:
+            want_p = p; multi_info = None
+            if src == "several-fields":
+                multi_info = skind; skind, want_p, how = multi_info
+                ex.count(f"several-fields:{skind}:{how}")
+            elif src == "faulted":
+                ex.count(f"faulted:{skind}")
+            elif stage:
                 ex.count(f"stage:{'first' if stage == 1 else skind}")
             ex.distinct.add((be, src, len(pubs), len(privs), len(cons), tuple(sorted({c10.value_class(v, pp) for v in pubs + privs}))))
-            bad, circ_hex = judge(ex, be, line, p, tf, files, m, stage, prev_files, prev_trace)
+            bad, circ_hex = judge(ex, be, line, want_p, tf, files, m, stage, prev_files, prev_trace, own_field=multi_info is None)
+            if multi_info and not bad:
+                # constraints that hold over the integers hold in the field of this export: evaluate the DECODED system on the decoded assignment
+                cmsg = merged(fbread.messages(bytes.fromhex(files["computation.zkif"])))
+                asg = {0: 1}; asg.update({i: v for i, v, _ in cmsg[0][1]}); asg.update({i: v for i, v, _ in cmsg[1][1]})
+                rec = [1] + pubs + privs
+                def evi(l): return sum(v * rec[k if k >= 0 else len(pubs) - k] for k, v in l)
+                def evd(l): return sum(v * asg.get(i, 0) for i, v, _ in l) % want_p
+                for idx, (dc, tc) in enumerate(zip(cmsg[2][1], cons)):
+                    if evi(tc[0]) * evi(tc[1]) == evi(tc[2]) and (evd(dc[0]) * evd(dc[1]) - evd(dc[2])) % want_p:
+                        bad.append(("integer-identity-unsatisfied", f"constraint {idx} holds over the integers on the installed values but the "
+                                    f"decoded assignment does not satisfy the decoded constraint modulo the field of this export"))
+                        break
             if stage is None:
                 circ_by_id[tf[0]] = circ_hex
             for clause, msg in bad:
                 sig = {"clause": clause, "backend": be, "constraints": size_class(len(cons))}
-                payload = {"backend": be, "line": line if line.startswith(("JT|big", "JS|")) else line[:4000]}
-                if stage:
+                payload = {"backend": be, "line": line if line.startswith(("JT|big", "JS|", "JM|", "JF|")) else line[:4000]}
+                if src == "several-fields":
+                    sig["export"] = "several-fields:" + skind; sig["switch"] = how
+                    payload["stage"] = stage; payload["field_of_this_export"] = want_p
+                elif src == "faulted":
+                    sig["export"] = skind; payload["stage"] = stage
+                elif stage:
                     sig["export"] = "first" if stage == 1 else "repeated:" + skind
                     payload["stage"] = stage
                 if clause in ("files-not-written", "export-raised", "stale-files"):
                     sig["dev"] = clause
                 if clause in ("files-not-written", "export-raised") and src == "program" and last_program_line:
                     payload["previous_line_in_the_same_process"] = last_program_line[:5000]
-                ex.violations.append(Violation(sig, f"{be}: {clause}: {msg}" + (f" [export #{stage} of a staged trace: {skind}]" if stage else ""), payload))
+                ex.violations.append(Violation(sig, f"{be}: {clause}: {msg}" + (f" [export #{stage} of one trace under several fields: {skind}, field of this export {want_p}, switched by {how}]" if src == "several-fields" else
+                                                                                f" [run #{stage} of a sequence of runs in one interpreter: {skind}]" if src == "faulted" else
+                                                                                f" [export #{stage} of a staged trace: {skind}]" if stage else ""), payload))
             if src == "program":
                 last_program_line = line
             if len(ex.samples) < 4 and cons and len(line) < 2000:
